@@ -279,7 +279,10 @@ class StmtChecker(AstVisitor[BBStatement]):
                 unsolved = array_type(ExistentialTypeVar.fresh("T", True, True), 0)
                 raise GuppyError(TypeInferenceError(starred, unsolved))
             array_ty = array_type(starred_ty, len(starred_tys))
-            unpack.pattern.starred = self._check_assign(starred, rhs_elts[0], array_ty)
+            # The RHS might have no elements at all (e.g. `*xs, = ys` for an array `ys`
+            # of length zero), so fall back to the RHS expression itself
+            starred_rhs = rhs_elts[0] if rhs_elts else rhs
+            unpack.pattern.starred = self._check_assign(starred, starred_rhs, array_ty)
 
         return with_type(rhs_ty, with_loc(lhs, unpack))
 
